@@ -138,6 +138,115 @@ def _drop_stdlib_logging(tree: ast.AST) -> None:
     visit(tree, False)
 
 
+# classes whose private "writer helpers" are read as part of the methods calling them: {module: {class: protected attributes}}
+INLINE_WRITER_HELPERS = {"leaspy.variables.state": {"State": ("_values", "_last_fork")}}
+
+
+def _inline_private_writers(tree: ast.AST, class_name: str, attrs) -> None:
+    """Extract-method normal form for the cache owner: a private method of `class_name` that stores into one of its protected attributes and
+    returns nothing, called as a statement `self._helper(args)` from another method of the class, is read as if its body stood at the call
+    (parameters bound to the arguments, its locals kept apart).  The helper itself stays defined (and analysed) as well."""
+    import copy as _copy
+    cls = next((n for n in tree.body if isinstance(n, ast.ClassDef) and n.name == class_name), None)
+    if cls is None:
+        return
+    methods = {n.name: n for n in cls.body if isinstance(n, ast.FunctionDef)}
+
+    def writes_protected(fn):
+        for n in ast.walk(fn):
+            if isinstance(n, (ast.Assign, ast.AugAssign, ast.AnnAssign)):
+                for t in (n.targets if isinstance(n, ast.Assign) else [n.target]):
+                    b = t.value if isinstance(t, ast.Subscript) else t
+                    if isinstance(b, ast.Attribute) and b.attr in attrs and isinstance(b.value, ast.Name) and b.value.id == "self":
+                        return True
+        return False
+
+    def inlinable(fn):
+        if not (fn.name.startswith("_") and not fn.name.startswith("__")) or fn.decorator_list or fn.args.vararg or fn.args.kwarg or fn.args.posonlyargs or fn.args.kwonlyargs:
+            return False
+        for n in ast.walk(fn):
+            if isinstance(n, (ast.Yield, ast.YieldFrom, ast.Await, ast.Global, ast.Nonlocal)) or (isinstance(n, ast.FunctionDef) and n is not fn) or isinstance(n, ast.Lambda):
+                return False
+            if isinstance(n, ast.Return) and (n.value is not None or n is not fn.body[-1]):
+                return False
+        return writes_protected(fn)
+    helpers = {k: v for k, v in methods.items() if inlinable(v)}
+    if not helpers:
+        return
+    original = {k: _copy.deepcopy(v) for k, v in helpers.items()}
+
+    def splice(caller, call, depth):
+        h = original[call.func.attr]
+        params = [a.arg for a in h.args.args][1:]
+        bound = {}
+        for i, a in enumerate(call.args):
+            if isinstance(a, ast.Starred) or i >= len(params):
+                return None
+            bound[params[i]] = a
+        for k in call.keywords:
+            if k.arg is None or k.arg not in params or k.arg in bound:
+                return None
+            bound[k.arg] = k.value
+        defaults = dict(zip(params[len(params) - len(h.args.defaults):], h.args.defaults))
+        for p_ in params:
+            if p_ not in bound:
+                if p_ not in defaults:
+                    return None
+                bound[p_] = defaults[p_]
+        body = [_copy.deepcopy(st) for st in h.body]
+        if body and isinstance(body[0], ast.Expr) and isinstance(body[0].value, ast.Constant) and isinstance(body[0].value.value, str):
+            body = body[1:]
+        if body and isinstance(body[-1], ast.Return):
+            body = body[:-1]
+        assigned = {n.id for st in body for n in ast.walk(st) if isinstance(n, ast.Name) and isinstance(n.ctx, (ast.Store, ast.Del))}
+        caller_names = {n.id for n in ast.walk(caller) if isinstance(n, ast.Name)} | {a.arg for a in caller.args.args}
+        ren, pre = {}, []
+        for p_ in params:
+            a = bound[p_]
+            if isinstance(a, ast.Name) and p_ not in assigned:
+                ren[p_] = a.id
+            else:
+                nm = p_ if (p_ not in caller_names and not isinstance(a, ast.Name)) else f"{p_}__{h.name.strip('_')}"
+                ren[p_] = nm
+                asg = ast.Assign(targets=[ast.Name(id=nm, ctx=ast.Store())], value=a)
+                pre.append(ast.copy_location(asg, call))
+        for nm in assigned - set(params):
+            ren[nm] = nm if nm not in caller_names else f"{nm}__{h.name.strip('_')}"
+        for st in body:
+            for n in ast.walk(st):
+                if isinstance(n, ast.Name) and n.id in ren:
+                    n.id = ren[n.id]
+        out = pre + body
+        for st in out:
+            ast.fix_missing_locations(st)
+        return out or [ast.copy_location(ast.Pass(), call)]
+
+    def visit(caller, holder, depth):
+        for field in ("body", "orelse", "finalbody"):
+            body = getattr(holder, field, None)
+            if not isinstance(body, list):
+                continue
+            new = []
+            for st in body:
+                c = st.value if isinstance(st, ast.Expr) else None
+                if isinstance(c, ast.Call) and isinstance(c.func, ast.Attribute) and isinstance(c.func.value, ast.Name) and c.func.value.id == "self" \
+                        and c.func.attr in helpers and c.func.attr != caller.name and depth < 3:
+                    sp = splice(caller, c, depth)
+                    if sp is not None:
+                        for s2 in sp:
+                            visit(caller, s2, depth + 1)
+                        new.extend(sp)
+                        continue
+                if not isinstance(st, (ast.FunctionDef, ast.AsyncFunctionDef, ast.ClassDef)):
+                    visit(caller, st, depth)
+                new.append(st)
+            body[:] = new
+        for hd in getattr(holder, "handlers", []) or []:
+            visit(caller, hd, depth)
+    for m in methods.values():
+        visit(m, m, 0)
+
+
 def normalise_tree(tree: ast.AST) -> None:
     """Behaviour-preserving normal form applied to every module before any rule looks at it:
     `x = EXPR` immediately followed by `return x` (x a plain local) becomes `return EXPR` (keeps the position of EXPR's statement);
@@ -224,6 +333,8 @@ class Index:
                         tree = ast.parse(src, p)
                 except SyntaxError as e:
                     raise AnalysisError("E0", f"{p} does not parse: {e}")
+                for cls_name, attrs in INLINE_WRITER_HELPERS.get(name, {}).items():
+                    _inline_private_writers(tree, cls_name, attrs)
                 normalise_tree(tree)
                 self.mods[name] = Module(name, p, os.path.relpath(p, self.repo), src, tree)
         self.digest = h.hexdigest()[:16]
